@@ -667,9 +667,9 @@ PostPasses ==     \* remove_unused_nodes when some rule keeps its nodes; NameFix
   /\ phase = "post"
   /\ LET m1 == IF KeepsNodes THEN DCE(m) ELSE m
          m2 == IF eng.count > 0 THEN NameFix(m1) ELSE m1
-     IN m' = m2
+     IN m' = m2 /\ h' = [h EXCEPT !.after = m2]         \* what apply_to_model() leaves behind
   /\ phase' = "cleanup"
-  /\ UNCHANGED <<cfg, bs, eng, h>>
+  /\ UNCHANGED <<cfg, bs, eng>>
 Cleanup ==        \* rewrite(): RemoveUnusedNodesPass, RemoveUnusedFunctionsPass, RemoveUnusedOpsetsPass
   /\ phase = "cleanup"
   /\ m' = RemoveUnusedOpsets(RemoveUnusedFunctions(DCE(m)))
@@ -693,7 +693,7 @@ Init == /\ phase = "build"
         /\ bs = [st |-> <<[g |-> IF cfg.wrap THEN 2 ELSE 1, kind |-> "root", node |-> 0]>>, np |-> 0]
         /\ eng = [st |-> <<>>, fq |-> <<>>, count |-> 0, pend |-> NoPend, dirty |-> FALSE, devs |-> Deviations]
         /\ h = [root |-> IF cfg.wrap THEN 2 ELSE 1, ia |-> IF cfg.wrap THEN 9 ELSE A, ib |-> IF cfg.wrap THEN 10 ELSE B, ic |-> IF cfg.wrap THEN 11 ELSE C,
-                orig |-> InitModel(cfg), ref |-> <<>>, any |-> FALSE, why |-> {}, apps |-> <<>>, raised |-> FALSE]
+                orig |-> InitModel(cfg), after |-> InitModel(cfg), ref |-> <<>>, any |-> FALSE, why |-> {}, apps |-> <<>>, raised |-> FALSE]
 Next == \/ (phase = "build" /\ \E op \in cfg.ops : \E args \in ArgChoices(op) : AddNode(op, args))
         \/ OpenIf \/ NextBranch \/ CloseIf
         \/ (phase = "build" /\ \E v0 \in LastOuts(m, Top.g, 1) \cup {IA} : OpenLoop(v0))
@@ -771,7 +771,7 @@ SortedWhy == IF h.why = {} THEN <<>> ELSE LET S == h.why IN
              SelectSeq(<<"as_function_nested_opsets", "function_nested_import_missing", "init_clash_overwrite", "multi_output_insertion_point", "var_binds_removed_intermediate">>, LAMBDA d : d \in S)
 Emit == phase = "done" /\ eng.devs = Deviations =>
   PrintT(<<"CASE", ToJson([rules |-> cfg.rules, commute |-> cfg.commute, wrap |-> cfg.wrap,
-                           orig |-> MJ(h.orig), final |-> MJ(m), count |-> eng.count, raised |-> h.raised,
+                           orig |-> MJ(h.orig), after |-> MJ(h.after), final |-> MJ(m), count |-> eng.count, raised |-> h.raised,
                            why |-> SortedWhy, ref |-> h.ref, any |-> h.any,
                            matched |-> [i \in 1..Len(h.apps) |-> [rule |-> h.apps[i].rule, srcs |-> [k \in 1..Len(h.apps[i].nodes) |-> m.nodes[h.apps[i].nodes[k]].src]]],
                            ok |-> DoneOK])>>)
@@ -805,22 +805,26 @@ Q_fn       == {RS(<<"fn">>,                {"I_fn", "I_fnc", "Neg"},           c
 Q_pair     == {RS(<<"pair">>,              {"I_pair", "I_pairr", "I_pairc", "Relu"}, c, 2, 1, T, X, X, X, X, X) : c \in BOOLEAN}
               \cup {RS(<<"pair">>,         {"I_pair", "Relu"},                 X, 2, 1, T, X, T, X, T, X)}
 QuickSets == Q_negneg \cup Q_keep \cup Q_relurelu \cup Q_mul1 \cup Q_subneg \cup Q_addsum \cup Q_chain \cup Q_dbl \cup Q_fn \cup Q_pair
-\* thorough: one more step, both operands free, depth 2 for the small alphabets
-T_negneg   == {RS(<<"negneg">>,            {"Neg"},                            X, 5, 2, T, T, X, X, X, T),
-               RS(<<"negneg">>,            {"Neg", "Relu"},                    X, 4, 1, T, X, X, X, T, X)}
-T_keep     == {RS(rs,                      {"Neg"},                            X, 4, 2, T, T, X, X, X, T) : rs \in {<<"keep">>, <<"keep", "negneg">>, <<"negneg", "keep">>}}
-T_relurelu == {RS(<<"relurelu">>,          {"Relu", "Neg"},                    X, 4, 2, T, T, X, X, X, T)}
-T_mul1     == {RS(<<"mul1">>,              {"Mul1", "Mul1c", "Neg"},           c, 3, 1, T, T, X, X, X, X) : c \in BOOLEAN}
-T_subneg   == {RS(<<"subneg">>,            {"Sub", "Relu"},                    X, 3, 2, T, T, sh, X, w, X) : sh \in BOOLEAN, w \in BOOLEAN}
-T_chain    == {RS(rs,                      {"Sub", "Add", "Neg"},              c, 3, 1, T, X, X, X, X, X) :
-                    rs \in {<<"subneg", "addsum">>, <<"addsum", "subneg">>, <<"subneg", "negneg">>, <<"negneg", "subneg", "addsum">>}, c \in BOOLEAN}
-T_dbl      == {RS(rs,                      {"Add", "Mul3", "Sub"},             X, 3, 1, T, T, X, cl, X, X) : rs \in {<<"dbl">>, <<"dbl", "addsum">>, <<"addsum", "dbl">>, <<"dbl", "subneg">>}, cl \in BOOLEAN}
-              \cup {RS(<<"dbl", "subneg">>, {"Add", "Sub"},                    X, 3, 1, T, X, X, X, T, X)}
-T_fn       == {RS(<<"fn">>,                {"I_fn", "I_fnc", "Neg", "Add"},    c, 3, 1, T, T, X, X, w, T) : c \in BOOLEAN, w \in BOOLEAN}
-              \cup {RS(rs,                 {"I_fn", "I_fnc", "Neg"},           c, 3, 1, T, X, X, X, X, X) : rs \in {<<"negneg", "fn">>, <<"fn", "negneg">>}, c \in BOOLEAN}
-T_pair     == {RS(<<"pair">>,              {"I_pair", "I_pairr", "I_pairc", "Relu", "Sub", "Add"}, c, 3, 1, T, T, sh, X, X, X) : c \in BOOLEAN, sh \in BOOLEAN}
-              \cup {RS(<<"pair">>,         {"I_pair", "I_pairc", "Relu"},      X, 3, 1, T, X, X, X, T, X)}
-              \cup {RS(<<"pair", "subneg">>, {"I_pair", "I_pairc", "Sub"},     X, 2, 1, T, X, X, X, X, X)}
+\* thorough: one more step everywhere, loops in more families, depth 2 and single-node alphabets for the cheap ones
+T_negneg   == {RS(<<"negneg">>,            {"Neg"},                            X, 5, 1, T, T, X, X, X, T),
+               RS(<<"negneg">>,            {"Neg"},                            X, 3, 2, T, T, X, X, X, X),
+               RS(<<"negneg">>,            {"Neg", "Relu"},                    X, 3, 1, T, X, X, X, T, X)}
+T_keep     == {RS(rs,                      {"Neg"},                            X, 4, 1, T, X, X, X, X, T) : rs \in {<<"keep">>, <<"keep", "negneg">>, <<"negneg", "keep">>}}
+T_relurelu == {RS(<<"relurelu">>,          {"Relu"},                           X, 5, 1, T, T, X, X, X, X)}
+T_mul1     == {RS(<<"mul1">>,              {"Mul1", "Mul1c"},                  c, 3, 1, T, T, X, X, X, X) : c \in BOOLEAN}
+T_subneg   == {RS(<<"subneg">>,            {"Sub", "Relu"},                    X, 3, 1, T, T, sh, X, w, X) : sh \in BOOLEAN, w \in BOOLEAN}
+T_chain    == {RS(rs,                      {"Sub", "Add"},                     X, 3, 1, T, X, X, X, X, X) : rs \in {<<"subneg", "addsum">>, <<"addsum", "subneg">>}}
+              \cup {RS(rs,                {"Sub", "Neg"},                     X, 3, 1, T, X, X, X, X, X) : rs \in {<<"subneg", "negneg">>, <<"negneg", "subneg">>}}
+              \cup {RS(<<"addsum">>,      {"Add"},                            c, 3, 1, T, T, X, X, X, X) : c \in BOOLEAN}
+T_dbl      == {RS(rs,                      {"Add", "Mul3"},                    X, 3, 1, T, X, X, cl, X, X) : rs \in {<<"dbl">>, <<"dbl", "addsum">>, <<"addsum", "dbl">>}, cl \in BOOLEAN}
+              \cup {RS(<<"dbl", "subneg">>, {"Add", "Sub"},                   X, 3, 1, T, X, X, X, T, X)}
+T_fn       == {RS(<<"fn">>,                {"I_fn", "I_fnc", "Neg"},           c, 3, 1, T, X, X, X, w, X) : c \in BOOLEAN, w \in BOOLEAN}
+              \cup {RS(<<"fn">>,          {"Neg", "Add"},                     c, 3, 1, X, X, X, X, X, T) : c \in BOOLEAN}
+              \cup {RS(rs,                {"I_fn", "I_fnc", "Neg"},           X, 3, 1, X, X, X, X, X, X) : rs \in {<<"negneg", "fn">>, <<"fn", "negneg">>}}
+T_pair     == {RS(<<"pair">>,              {"I_pair", "I_pairr", "I_pairc", "Relu"}, c, 3, 1, T, X, X, X, X, X) : c \in BOOLEAN}
+              \cup {RS(<<"pair">>,        {"Sub", "Add", "Relu"},             X, 3, 1, X, X, sh, X, X, X) : sh \in BOOLEAN}
+              \cup {RS(<<"pair">>,        {"I_pair", "I_pairc", "Relu"},      X, 3, 1, T, X, T, X, T, X)}
+              \cup {RS(<<"pair", "subneg">>, {"I_pair", "I_pairc", "Sub"},    X, 2, 1, T, X, X, X, X, X)}
 ThoroughSets == T_negneg \cup T_keep \cup T_relurelu \cup T_mul1 \cup T_subneg \cup T_chain \cup T_dbl \cup T_fn \cup T_pair
 VacuitySets == {RS(<<"subneg">>, {"Sub"}, X, 2, 1, T, X, X, X, X, X), RS(<<"dbl">>, {"Add"}, X, 2, 1, X, X, X, X, X, X),
                 RS(<<"relurelu">>, {"Relu"}, X, 3, 1, X, X, X, X, X, X), RS(<<"pair">>, {"I_pairc"}, X, 1, 1, X, X, X, X, X, X)}
